@@ -25,6 +25,11 @@ CHECKS = {
    text="For every word of block contents up to length 2 (thorough 3) after a 14-block prefix (conversion, inbound ETXs, Qi outputs, trimmable output) every block is processed by the real StateProcessor three times warm and once on a cold replica started from a copy of the databases before it is appended (all outputs equal), after acceptance the MuHash is recomputed from a scan of the ut/cl prefixes and compared with header root, stored multiset and stored size and the state is reopened at the header roots, and the whole history is replayed on leveldb- and pebble-backed zone nodes (same verdicts and canonical projection).",
    note="Trusts: scaled constants. Map-iteration-order and scheduler independence are only sampled by the repeated runs here (the trimming goroutines are explored separately when the scheduler part is built). Known finding: spend-at-trim-height double removal (known_findings.json).",
    design="2/C06"),
+ "C11": dict(
+   technique="crash-prefix enumeration: every prefix of the global write log (puts, deletes, atomic batches on prime/region/zone DBs) of a multi-level history with a reorg is materialised, restarted with the real NewSlice and continued; differential oracle against the uncrashed node",
+   text="A node on write-logging databases follows a history of foreign blocks (zone block with Qi spend/transfers/contract creation, region-order block, prime-order block, two more zone blocks, three side-branch inserts and a depth-2 reorganisation). For EVERY prefix of the ~120-entry global write log the three databases are rebuilt, the real node is restarted on them and must open without error/panic, report a zone head whose header commitments equal a full scan of the stored ledger, complete the rest of the history starting with the interrupted block, and end with exactly the canonical projection of the node that never crashed.",
+   note="Trusts: process-crash model (write order preserved, a committed batch is atomic); engine internals, torn writes inside a batch and power-loss reordering are not explored. The dom's production retry path for missing pending ETXs is modelled by retrying the insert (<=16 times).",
+   design="2/C11"),
 }
 
 NOT_YET = "check not built yet in this session (planned; see DESIGN.md section 2)"
